@@ -38,6 +38,9 @@ TRUSTED = ['translators gen/gen_api.py + gen/apifrag.py (ast, fail-closed; every
            'encoders/decoders of harness/c07_spec.py: models of the specifications as the author knows them']
 
 IGNORE_ATTRS = {'LedState': {'fru_id', 'led_id'}}
+# operations whose result construction is a hand-written builtin of Model/ApiSem.v (guarded by an ast fingerprint
+# in the translator), the exchange itself being generated
+HAND_OPS = ['get_component_property']
 
 
 # ---------------------------------------------------------------------------------------------
@@ -221,6 +224,16 @@ def rand_state(rng):
         s[(B.K_DCMIPWR, 0, 0)] = [rng.randrange(256) for _ in range(17)]
     if rng.random() < 0.3:
         s[(B.K_DCMICAP, rng.randrange(6), 0)] = [rng.randrange(256) for _ in range(rng.choice([0, 1, 4]))]
+    for _ in range(rng.randrange(3)):
+        sel = rng.randrange(5)
+        if sel == 0:
+            v = [rng.randrange(64)]
+        elif sel == 2:
+            v = [rng.choice(b'ABCxyz019 ._-') for _ in range(rng.randrange(1, 12))]
+            v += [0] * (12 - len(v))
+        else:
+            v = [rng.randrange(128), rng.choice([0x00, 0x09, 0x10, 0x35, 0x99, 0xff])] + [rng.randrange(256) for _ in range(4)]
+        s[(B.K_COMPPROP, rng.choice([0, 1, 7]), sel)] = v
     if rng.random() < 0.4:
         s[(B.K_HPMCAP, 0, 0)] = [rng.randrange(256) for _ in range(6)] + [rng.choice([0, 1, 0x05, 0x80, 0xff])]
     if rng.random() < 0.4:
@@ -439,7 +452,7 @@ def run(ctx):
         'ops_generated': gen_ok,
         'ops_generated_count': len(gen_ok),
         'ops_translated_without_reference_semantics': sorted(n for n in supported if n in all_ops and n not in SPEC),
-        'ops_hand': [],
+        'ops_hand': sorted(n for n in HAND_OPS if n in gen_ok),
         'ops_refused_by_translator': sorted(n for n in covered if n not in supported),
         'ops_uncovered': uncovered,
         'ops_uncovered_count': len(uncovered),
